@@ -35,12 +35,12 @@ struct Dump;
 
 impl Callbacks for Dump {
     fn after_analysis<'tcx>(&mut self, _c: &Compiler, tcx: TyCtxt<'tcx>) -> Compilation {
-        let out = match std::env::var("PKV_OUT") {
-            Ok(p) => p,
-            Err(_) => return Compilation::Continue,
+        let out = match OUT_PATH.get().cloned().flatten() {
+            Some(p) => p,
+            None => return Compilation::Continue,
         };
         let name = tcx.crate_name(LOCAL_CRATE).to_string();
-        if let Ok(want) = std::env::var("PKV_CRATE") {
+        if let Some(want) = WANT_CRATE.get().cloned().flatten() {
             if want != name {
                 return Compilation::Continue;
             }
@@ -54,7 +54,17 @@ impl Callbacks for Dump {
     }
 }
 
+static OUT_PATH: std::sync::OnceLock<Option<String>> = std::sync::OnceLock::new();
+static WANT_CRATE: std::sync::OnceLock<Option<String>> = std::sync::OnceLock::new();
+
 fn main() {
+    // The driver's own parameters must not be visible to the analysed crate's `env!`/`option_env!`:
+    // read them, then scrub them (and the wrapper variables) from the process environment.
+    let _ = OUT_PATH.set(std::env::var("PKV_OUT").ok());
+    let _ = WANT_CRATE.set(std::env::var("PKV_CRATE").ok());
+    for k in ["PKV_OUT", "PKV_CRATE", "PKV_DEBUG_KEEP", "RUSTC_WORKSPACE_WRAPPER", "RUSTC_WRAPPER"] {
+        unsafe { std::env::remove_var(k) };
+    }
     let mut args: Vec<String> = std::env::args().collect();
     // invoked as: <wrapper> <rustc> <args...>
     if args.len() > 1 && (args[1].ends_with("rustc") || args[1].contains("/rustc")) {
@@ -782,6 +792,41 @@ fn vis_str(tcx: TyCtxt<'_>, did: DefId) -> String {
     }
 }
 
+/// Public names: for the crate root and every module reachable through public modules, the items it
+/// exports (own items and re-exports) with the definition each name resolves to.
+fn exports_json<'tcx>(tcx: TyCtxt<'tcx>) -> J {
+    let mut out = Vec::new();
+    let mut todo: Vec<(rustc_hir::def_id::LocalDefId, String)> = vec![(rustc_hir::def_id::CRATE_DEF_ID, String::new())];
+    let mut seen = std::collections::BTreeSet::new();
+    while let Some((m, prefix)) = todo.pop() {
+        if !seen.insert(m.local_def_index.as_u32()) {
+            continue;
+        }
+        for child in tcx.module_children_local(m) {
+            if !child.vis.is_public() {
+                continue;
+            }
+            let name = child.ident.name.to_string();
+            let full = if prefix.is_empty() { name.clone() } else { format!("{}::{}", prefix, name) };
+            if let Some(did) = child.res.opt_def_id() {
+                let kind = format!("{:?}", tcx.def_kind(did));
+                out.push(J::obj(vec![
+                    ("name", J::Str(full.clone())),
+                    ("target", J::Str(tcx.def_path_str(did))),
+                    ("kind", J::Str(kind)),
+                    ("reexport", J::Bool(!child.reexport_chain.is_empty())),
+                ]));
+                if matches!(tcx.def_kind(did), DefKind::Mod) {
+                    if let Some(l) = did.as_local() {
+                        todo.push((l, full));
+                    }
+                }
+            }
+        }
+    }
+    J::Arr(out)
+}
+
 fn dump_adt<'tcx>(cx: &Cx<'tcx>, did: DefId) -> J {
     let tcx = cx.tcx;
     let adt = tcx.adt_def(did);
@@ -1123,6 +1168,18 @@ fn dump_crate<'tcx>(tcx: TyCtxt<'tcx>, name: &str) -> J {
         ("impls", J::Arr(impls)),
         ("consts", J::Arr(consts)),
         ("statics", J::Arr(statics)),
+        ("exports", exports_json(tcx)),
+        ("env_reads", {
+            // environment variables the crate read at compile time (env!/option_env!, tracked by rustc for dep-info)
+            let mut v: Vec<J> = Vec::new();
+            for (k, val) in tcx.sess.env_depinfo.borrow().iter() {
+                v.push(J::obj(vec![
+                    ("var", J::Str(k.to_string())),
+                    ("value", match val { Some(x) => J::Str(x.to_string()), None => J::Null }),
+                ]));
+            }
+            J::Arr(v)
+        }),
         ("skipped_mir_keys", J::Arr(skipped)),
         ("fns", J::Arr(fns)),
     ])
